@@ -336,6 +336,55 @@ fn random_part(ctx: &Ctx, job: usize, iters: u64) -> Stats {
     st
 }
 
+/// Operands the environment did not build itself: plain `Rc::new` diagrams (ordered, reduced,
+/// unshared) — what `BDD::<usize>::from(..)` or another environment hands out — used once and then
+/// dropped, for many rounds on ONE environment (so that freed addresses get reused).
+fn foreign_part(ctx: &Ctx, job: usize, rounds: u64) -> Stats {
+    use crate::conv::build_ref;
+    let mut st = Stats::new();
+    let mut rng = Rng::stream(ctx.seed, "C03.foreign", job as u64);
+    let uni: Vec<usize> = vec![1, 3, 4, 7];
+    let n = uni.len() as u32;
+    let vars: Vec<(usize, u32)> = uni.iter().enumerate().map(|(i, l)| (*l, i as u32)).collect();
+    let env: BDDEnv<usize> = BDDEnv::new();
+    for _ in 0..rounds {
+        let mk = |rng: &mut Rng, foreign: bool| {
+            let mut t = Tt::constant(n, false);
+            for a in 0..t.size() {
+                t.set(a, rng.chance(1, 2));
+            }
+            let d = if foreign { build_ref(&t, &vars) } else { build_in_env(&env, &t, &vars) };
+            let snap = deep_copy(&d);
+            (d, snap, t)
+        };
+        let a = mk(&mut rng, true);
+        let fb = rng.chance(1, 2);
+        let b = mk(&mut rng, fb);
+        let fc = rng.chance(1, 2);
+        let c = mk(&mut rng, fc);
+        for op in BIN_OPS.iter() {
+            check_binary(&mut st, &env, op, &a, &b, &uni, "foreign-operands");
+            check_binary(&mut st, &env, op, &b, &a, &uni, "foreign-operands");
+        }
+        check_ite(&mut st, &env, &a, &b, &c, &uni, "foreign-operands");
+        check_ite(&mut st, &env, &c, &a, &b, &uni, "foreign-operands");
+        // not
+        st.evals += 1;
+        st.bump("op_not");
+        match guarded(|| env.not(Rc::clone(&a.0))) {
+            Ok(r) => {
+                if tt_of_bdd(&r, n, &idx_of(&uni)).ok().as_ref() != Some(&a.2.not()) {
+                    st.violate("c03.pointwise", "C03:not:wrong-value".into(), format!("not({}) = {} (operand not built by this environment)", short(&a.0), short(&r)), json!({"kind": "foreign", "seed": ctx.seed, "job": job}));
+                }
+            }
+            Err(cg) => st.violate("c03.panic", format!("C03:not:{}", cg.signature()), format!("{:?}", cg), json!({"kind": "foreign", "seed": ctx.seed, "job": job})),
+        }
+        st.bump("foreign_operand_rounds");
+        // a, b, c are dropped here: their addresses become free again
+    }
+    st
+}
+
 fn named_part(ctx: &Ctx, job: usize, iters: u64) -> Stats {
     // same monitor over BDDEnv<NamedSymbol> (labels compare by id; names are only display)
     let mut st = Stats::new();
@@ -446,12 +495,13 @@ pub fn run(ctx: &Ctx) -> (Stats, Spec) {
     let parts = util::par_jobs(16, |job| {
         let mut s = random_part(ctx, job, iters);
         s.merge(named_part(ctx, job, iters / 2));
+        s.merge(foreign_part(ctx, job, iters / 20));
         s
     });
     st.merge(crate::report::merge_all(parts));
 
     let spec = Spec {
-        rule: "exhaustive: every ordered pair (triple for ite) of Boolean functions over 3 (2) variables in every argument position, under 5 label configurations (adjacent, interleaved-disjoint, extreme indices incl. usize::MAX, overlapping, disjoint-nested); random: operands over 4-6 sparse labels built by random routes with overlapping/nested/disjoint supports, BDDEnv<usize> and BDDEnv<NamedSymbol>. distinct = (connective, operand tables, configuration); non-trivial = every operand non-constant.".into(),
+        rule: "exhaustive: every ordered pair (triple for ite) of Boolean functions over 3 (2) variables in every argument position, under 5 label configurations (adjacent, interleaved-disjoint, extreme indices incl. usize::MAX, overlapping, disjoint-nested); random: operands over 4-6 sparse labels built by random routes with overlapping/nested/disjoint supports, BDDEnv<usize> and BDDEnv<NamedSymbol>; rounds with operands NOT built by the environment (plain unshared diagrams, dropped after use, thousands of rounds on one environment). distinct = (connective, operand tables, configuration); non-trivial = every operand non-constant.".into(),
         assumptions: vec![
             "operands are diagrams produced by the same environment over a common variable order (the statement's precondition)".into(),
             "the value of a diagram is read by following T/F edges from the root (tt_of_bdd), independent of any engine operation".into(),
@@ -461,6 +511,7 @@ pub fn run(ctx: &Ctx) -> (Stats, Spec) {
             ("op_ite".into(), 1000, "ite never exercised".into()),
             ("op_not".into(), 100, "not never exercised".into()),
             ("named_symbol_calls".into(), 100, "NamedSymbol environment never exercised".into()),
+            ("foreign_operand_rounds".into(), 1_000, "operands built outside the environment never exercised".into()),
             ("distinct_nontrivial".into(), 1000, "too few non-trivial cases".into()),
         ],
     };
@@ -482,6 +533,17 @@ pub fn replay(_ctx: &Ctx, _monitor: &str, case: &Value, st: &mut Stats) {
         let snap = deep_copy(&d);
         (d, snap, t)
     };
+    if case.get("config").and_then(|c| c.as_str()) == Some("foreign-operands") {
+        // history dependent (operands are created and dropped): re-run the foreign-operand rounds of every job
+        let rounds = 40_000 / 20;
+        for job in 0..16 {
+            st.merge(foreign_part(_ctx, job, rounds));
+            if !st.violations.is_empty() {
+                break;
+            }
+        }
+        return;
+    }
     match kind {
         "binary" => {
             if let (Some(a), Some(b), Some(op)) = (get("a"), get("b"), case.get("op").and_then(|o| o.as_str())) {
@@ -493,6 +555,12 @@ pub fn replay(_ctx: &Ctx, _monitor: &str, case: &Value, st: &mut Stats) {
             if let (Some(a), Some(b), Some(c)) = (get("a"), get("b"), get("c")) {
                 check_ite(st, &env, &mk(a), &mk(b), &mk(c), &uni, "replay");
             }
+        }
+        "foreign" => {
+            let job = case.get("job").and_then(|j| j.as_u64()).unwrap_or(0) as usize;
+            let mut c2 = _ctx.clone();
+            c2.seed = case.get("seed").and_then(|j| j.as_u64()).unwrap_or(_ctx.seed);
+            st.merge(foreign_part(&c2, job, 3_000));
         }
         _ => {
             let mut s2 = Stats::new();
